@@ -410,7 +410,7 @@ def compile_compare_op_expression(compiler, expr, root, args):
     return ret + asty.Compare(expr, left=exprs[0], ops=ops, comparators=exprs[1:])
 
 
-@pattern_macro("chainc", [FORM, many(SYM + FORM)])
+@pattern_macro("chainc", [FORM, oneplus(SYM + FORM)])
 def compile_chained_comparison(compiler, expr, root, arg1, args):
     ret = compiler.compile(arg1)
     arg1 = ret.force_expr
